@@ -23,3 +23,6 @@
 (define-fun urkey_nonce ((k Bytes)) Int (hexv (kf_3 k)))
 (define-fun urkey_op ((k Bytes)) Bytes (kf_1 k))
 (define-fun pendkey_height ((k Bytes)) Int (hexv (kf_1 k)))
+; under(p, k): k is a key of the prefix store p, i.e. k = cat(p, rest) in the right-nested normal form every key
+; written or read through prefix.NewStore(_, p) has in this model
+(define-fun under ((p Bytes) (k Bytes)) Bool (and ((_ is cat) k) (= (cat_a k) p)))
